@@ -14,9 +14,9 @@ DECIDES = ('a knot vector of wrong length or decreasing order cannot reach stora
            '(strict >, all pairs covered), and returns True only after both tests (KC1); knotvector.generate returns degree + n + 1 knots on both '
            '`clamped` branches with end multiplicity degree + 1 when clamped (LY4); knotvector.normalize is the affine map (k - first)/(last - first) '
            '(AL8); both span searches implement half-open spans: comparison operators on the lower/upper knot are exactly (<, >=) resp. (<=) (HO1); '
-           'find_multiplicity compares absolute differences (TOL1); per-direction helper calls in helpers are direction-uniform (AX1).')
+           'find_multiplicity compares absolute differences (TOL1); per-direction helper calls in helpers are direction-uniform (AX1); [SKEL, bounded] basis_function, basis_function_all and basis_function_ders are index-safe for degrees 1..7, every span and derivative orders 0..degree+2.')
 NOT_DECIDED = ('uniqueness/value of the returned span, linear == binary search, non-negativity, partition of unity, derivative sums, Cox-de Boor '
-               'equality, order-preservation to rounding: all numerical; index safety of the basis routines is SKEL territory (bounded), not claimed here.')
+               'equality, order-preservation to rounding: all numerical; basis_function_ders_one and find_span_* contain float comparisons and are outside the index-skeleton interpreter.')
 TECHNIQUE = 'CFG dominance (guards), polynomial normal forms, comparison-operator lattice, symbolic length algebra'
 
 
@@ -33,6 +33,7 @@ def check(m, run):
     from .c09 import tol_two_sided
     n = tol_two_sided(m, run, [m.func('helpers.find_multiplicity'), m.func('helpers.find_span_binsearch')])
     ra.ax1_helper_calls(m, run, [fi for fi in m.funcs.values() if fi.mod in ('helpers', 'knotvector')])
+    _skel(m, run)
     run.floor('GD1.check-dominates-store', 6, 'six concrete knot vector setters')
     run.floor('KC1.check-structure', 4, 'length test, order scan, coverage, final True')
     run.floor('LY4.generate-length', 2, 'clamped / unclamped')
@@ -476,3 +477,8 @@ def ho1(m, run):
     rets = [n for n in walk_no_nested(fl.node) if isinstance(n, ast.Return)]
     okr = len(rets) == 1 and isinstance(rets[0].value, ast.BinOp) and isinstance(rets[0].value.op, ast.Sub) and norm(rets[0].value.right) == '1'
     run.ob('HO1.half-open-span', fl.key + ' :: returns span - 1', okr, 'returns `%s`' % (norm(rets[0].value) if rets else '?'), site(fl))
+
+
+def _skel(m, run):
+    from .. import skel_drivers
+    skel_drivers.c03(m, run)
